@@ -2,6 +2,7 @@
    The observed, totally ordered history is turned into the label list it determines; the model must
    replay it, regenerate exactly the observed event stream and end in `Done`. *)
 From CV Require Import Model.Base Model.Events Model.Contract Model.AttemptSpec Model.Sched Model.SchedSpec Check.Verdict.
+From CV Require Proofs.FramingP.
 
 Record sdcase := mk_sdcase {
   sd_conc_cli : option nat; sd_conc_builder : option (option nat);   (* builder: None = default (64), Some None = unlimited *)
@@ -116,8 +117,16 @@ Definition verdict_with (mon : sdcase -> bool) (id : N) (c : sdcase) : list (lis
   if sd_hang c then [vrow id 1 (1, 0)]        (* a poll of the event stream that never returned *)
   else [vrow id 1 (judge (mon c) (same_as_model c) 0); [id; 90; 0; if theorem_applies c then 1 else 0]].
 
+(* ... and the framing recogniser of Proofs/FramingP.v (proved of every run of the model: at most one ParsingFinished, no
+   parser error after it, its counts those of the input, no empty bracket; a finished run has exactly one) *)
+Definition framing_mon (c : sdcase) : bool :=
+  let evs := events_of (sd_history c) in
+  FramingP.framing_prefix evs
+  && FramingP.inputs_ok (labels_of (feature_items (sd_items c)) [] (sd_history c)) evs
+  && (negb (sd_terminated c) || FramingP.framing_ok evs).
 Definition mon03 c := c03_ok (sd_items c) (sd_history c) (sd_terminated c)
-                      && (negb (sd_terminated c) || c03_complete_ok (effective_ff c) (sd_items c) (sd_history c)).
+                      && (negb (sd_terminated c) || c03_complete_ok (effective_ff c) (sd_items c) (sd_history c))
+                      && framing_mon c.
 Definition mon04 c := c04_ok (effective_ff c) (sd_items c) (sd_history c) (sd_terminated c)
                       && c04_progress_ok (effective_ff c) (sd_items c) (sd_history c).
 Definition mon05 c := c05_ok (effective_ff c) (sd_items c) (sd_history c).
